@@ -10,6 +10,30 @@ META = {
     "C01": dict(engine="fiberx+rt", technique="runtime monitoring: seeded fiber-schedule exploration with exactly-once/digest/canary/logical-clock monitors under ASan+UBSan; real-thread passes under TSan/ASan",
                 text="Held on the executions explored: every consumer kind x producer kind x payload kind under tens of thousands (quick) to millions (thorough) of distinct fiber interleavings at yaclib_std-operation granularity, plus real-thread passes. Sampling, not enumeration; the evidence lists distinct interleavings actually seen per cell.",
                 note="Trusts the fiber scheduler to pre-empt at every yaclib_std operation, gcc sanitizers, and the monitors in harness/fam_core.cpp; schedules are sampled.", ref="DESIGN.md §3 C01"),
+    "C06": dict(engine="fiberx+rt", technique="runtime monitoring: fiber-schedule exploration of random observer-operation sequences on SharedFuture copies with per-observer exactly-once, canary/moved-from and Ready-implies-readable monitors (ASan+UBSan); real-thread passes under TSan/ASan",
+                text="Held on the executions explored: 2-4 observer threads running random sequences of 14 observer operations against one fulfilling thread, plus shared inputs of When*/Wait; sampled schedules, counts in evidence.",
+                note="Trusts the monitors in harness/fam_shared.cpp (values identify the write they observed), gcc sanitizers and the fiber scheduler's pre-emption points.", ref="DESIGN.md §3 C06"),
+    "C07": dict(engine="fiberx+rt", technique="runtime monitoring: overlap counter, per-submitter sequence and took-effect order checks, Call/Drop conservation and deadlock detection over seeded fiber schedules (ASan+UBSan); plain-counter happens-before check under TSan",
+                text="Held on the executions explored: 1-4 submitters x 1-5 jobs (+ re-entrant submissions) on strands over pool(1-3)/manual/inline/stopped executors and strand-over-strand, with Stop/SoftStop/HardStop at random points.",
+                note="Trusts harness/fam_exec.cpp monitors and sanitizers; schedules are sampled.", ref="DESIGN.md §3 C07"),
+    "C08": dict(engine="fiberx+rt", technique="runtime monitoring: Call/Drop conservation against client-visible stop order (interval rule), no-Call-after-Wait flag, single-worker FIFO check, deadlock detection over seeded fiber schedules; TSan/ASan real-thread passes",
+                text="Held on the executions explored: submitters x workers(1-3) x Stop/SoftStop/HardStop at random moments followed by Wait.",
+                note="Trusts harness/fam_exec.cpp monitors and sanitizers; schedules are sampled.", ref="DESIGN.md §3 C08"),
+    "C09": dict(engine="fiberx+rt", technique="runtime monitoring: logical-clock interval oracle for which/when, per-index value check, exactly-once output, tracked release (ASan+UBSan) over seeded fiber schedules; TSan/ASan real-thread passes",
+                text="Held on the executions explored: WhenAll/Join in dynamic, static, mixed and tuple forms x FailPolicy None/FirstFail x 1-4 inputs completing before/during/after registration.",
+                note="Interval rule never orders overlapping calls (weakest sound oracle); trusts harness/fam_when.cpp and sanitizers.", ref="DESIGN.md §3 C09/C10"),
+    "C10": dict(engine="fiberx+rt", technique="runtime monitoring: per-policy winner rule over logical-clock intervals, exactly-once output, tracked release (ASan+UBSan) over seeded fiber schedules; TSan/ASan real-thread passes",
+                text="Held on the executions explored: WhenAny dynamic/static/mixed x None/FirstFail/LastFail x 1-4 inputs x every success/failure pattern.",
+                note="Interval rule never orders overlapping calls; trusts harness/fam_when.cpp and sanitizers.", ref="DESIGN.md §3 C09/C10"),
+    "C11": dict(engine="fiberx+rt", technique="runtime monitoring: return value vs readiness vs virtual deadline, exactly-once delivery after the wait, instrumented Event (touch-after-return registry) and ASan stack-use-after-return over seeded fiber schedules in virtual time",
+                text="Held on the executions explored: Wait/WaitFor/WaitUntil in single, variadic and iterator forms, unique/shared/mixed, deadlines before/between/after completions; every future consumed afterwards by a random consumer kind.",
+                note="Virtual time of the fiber scheduler; real-thread pass uses wall-clock only for deadlines (>=), never for verdicts on speed.", ref="DESIGN.md §3 C11"),
+    "C16": dict(engine="fiberx+rt", technique="runtime monitoring: done_begun==total at every release, release counter per waiter, attached-future Ready sampler, deadlock detection, ASan on TimedWaiter, executor tag after coroutine resumption",
+                text="Held on the executions explored: WaitGroup{1} guard pattern with Done threads, attached/consumed futures, blocking/timed/coroutine waiters (inline, sticky, on-executor) registering at random moments; OneShotEvent Set/Call/TryAdd/Wait directly.",
+                note="Trusts harness/fam_wg.cpp; Add only while count is non-zero as documented.", ref="DESIGN.md §3 C16"),
+    "C18": dict(engine="fiberx", technique="runtime monitoring: confirmed/maybe holder shadow state, justified-failure rule, virtual-clock deadline check, deadlock detection over seeded fiber schedules",
+                text="Held on the executions explored: 2-5 fibers x random op sequences on each of the six lock types; condition_variable wait/wait_for/wait_until with and without predicate against notify_one/all; thread join and per-fiber thread-local pointers.",
+                note="Fiber backend only (the THREAD backend wraps the real std types).", ref="DESIGN.md §3 C18"),
 }
 
 ALL = ["C%02d" % i for i in range(1, 21)]
